@@ -12,17 +12,25 @@ import (
 // leaf is an origin of a value: the defining value after looking through phis,
 // conversions, slicing and string concatenation, with the phi edges passed.
 type leaf struct {
-	V   ssa.Value
-	Via []*ssa.BasicBlock // predecessor blocks of the phi edges traversed (outermost first)
+	V     ssa.Value
+	Via   []*ssa.BasicBlock // predecessor blocks of the phi edges traversed (outermost first)
+	ViaTo []*ssa.BasicBlock // the phi's own block for each of those edges
 }
 
 // facts that hold when the leaf's value flows: facts at each phi-edge block plus
 // facts at the leaf's own defining block.
 func (l leaf) facts() []fact {
 	var out []fact
-	for _, b := range l.Via {
+	for k, b := range l.Via {
 		out = append(out, factsAt(b)...)
-		// the edge itself: if b ends in If and the phi block is one successor
+		// the edge itself: if b ends in If and the phi block is exactly one of its successors
+		if i := blockIf(b); i != nil && k < len(l.ViaTo) && b.Succs[0] != b.Succs[1] {
+			if b.Succs[0] == l.ViaTo[k] {
+				out = append(out, normFact(fact{V: i.Cond, Pol: true, If: i}))
+			} else if b.Succs[1] == l.ViaTo[k] {
+				out = append(out, normFact(fact{V: i.Cond, Pol: false, If: i}))
+			}
+		}
 	}
 	if in, ok := l.V.(ssa.Instruction); ok && in.Block() != nil {
 		out = append(out, factsAt(in.Block())...)
@@ -39,8 +47,8 @@ type originOpts struct {
 func origins(v ssa.Value, o originOpts) []leaf {
 	var out []leaf
 	seen := map[ssa.Value]bool{}
-	var walk func(v ssa.Value, via []*ssa.BasicBlock)
-	walk = func(v ssa.Value, via []*ssa.BasicBlock) {
+	var walk func(v ssa.Value, via, viaTo []*ssa.BasicBlock)
+	walk = func(v ssa.Value, via, viaTo []*ssa.BasicBlock) {
 		v = strip(v)
 		if seen[v] {
 			return
@@ -50,31 +58,32 @@ func origins(v ssa.Value, o originOpts) []leaf {
 		case *ssa.Phi:
 			for i, e := range x.Edges {
 				nv := append(append([]*ssa.BasicBlock{}, via...), x.Block().Preds[i])
-				walk(e, nv)
+				nt := append(append([]*ssa.BasicBlock{}, viaTo...), x.Block())
+				walk(e, nv, nt)
 			}
 			return
 		case *ssa.Slice:
 			if o.throughSlice {
-				walk(x.X, via)
+				walk(x.X, via, viaTo)
 				return
 			}
 		case *ssa.BinOp:
 			if o.throughConcat && x.Op == token.ADD {
-				walk(x.X, via)
-				walk(x.Y, via)
+				walk(x.X, via, viaTo)
+				walk(x.Y, via, viaTo)
 				return
 			}
 		case *ssa.UnOp:
 			if o.throughElems && x.Op == token.MUL {
 				if ia, ok := x.X.(*ssa.IndexAddr); ok {
-					walk(ia.X, via)
+					walk(ia.X, via, viaTo)
 					return
 				}
 			}
 		}
-		out = append(out, leaf{V: v, Via: via})
+		out = append(out, leaf{V: v, Via: via, ViaTo: viaTo})
 	}
-	walk(v, nil)
+	walk(v, nil, nil)
 	return out
 }
 
